@@ -113,6 +113,16 @@ CHECKS["C16"] = dict(
     level_text="Bounded symbolic execution: a consumer folding the notifications is compared with the reference state after every operation, cascade and Flush; server construction is executed for both option orders.",
     level_note=_RIBNOTE)
 
+CHECKS["C07"] = dict(
+    runs=[dict(pkg="rib", harness="VfC07_getRIB_q", reach=["end", "pre-built", "all"], thorough=dict(skip=True), opts=dict(only=["C07:"]),
+               bounds="canonical pre-state (1 next-hop, 1 group, 1 IPv4/IPv6/MPLS entry, optional payload fields) in two instances; GetRIB of either instance with each of the 6 table filters; ALL compared with the union of the five per-table Gets; FromGetResponses over both instances compared with the reference"),
+          dict(pkg="rib", harness="VfC07_getRIB_t", reach=["end", "pre-built", "all"], quick=dict(skip=True), opts=dict(only=["C07:"]),
+               bounds="as getRIB_q with 2 next-hops, 2 top-level entries, a held operation (must not be reported), groups of <=2 members, slots in either instance"),
+          dict(pkg="server", harness="VfC07_doGet", reach=["end"], bounds="Server.Get on a scripted stream: instance selector (all / name incl. empty and unknown) x table filter (any enum number); small concrete RIB in two instances")],
+    assumptions=["PARTIAL: the field-for-field fidelity of the reflection pipeline (protomap / ytypes / ygot) is replaced by models that carry key, group reference(+instance), metadata, members/weights/backup/colour, next-hop network-instance; every other payload field (addresses, MAC, interface refs, encap/decap headers, label stacks, pop-top-label ...) is OUTSIDE this check (a concrete probe shows pop_top_label is dropped by the real pipeline; this family cannot decide it)"],
+    level_text="Bounded symbolic execution of GetRIB / doGet / FromGetResponses from symbolic RIB contents: scope, filter, tagging, once-only and modelled-field payload equality are decided for every symbolic key/value.",
+    level_note=_RIBNOTE)
+
 NOT_APPLICABLE = {
     "C19": "whole compliance-suite runs over in-memory gRPC against wrapped servers in every order: a whole-program execution through gRPC, testing and reflection; no bounded symbolic encoding within reach (DESIGN.md §8)",
 }
